@@ -42,8 +42,8 @@ m('c01-list-inner-or', 'C01', P, "            or_list.append(_checks.AndCheck(an
 # ---- C02 ------------------------------------------------------------------
 m('c02-revert-d1', 'C02', P, "        if state.tokens and state.tokens[0] not in ('check', 'and_expr',\n                                                    'or_expr'):\n            raise ValueError('Could not parse rule')\n",
   "", 'revert fix D1 (lone operator / quoted string)')
-m('c02-revert-d2', 'C02', P, "    if rule is None or isinstance(rule, (list, tuple)):\n        return _parse_list_rule(rule)\n\n    # Anything else (a boolean, a number, a mapping) is not a rule; fail closed\n    LOG.error('Failed to understand rule %s', rule)\n    return _checks.FalseCheck()",
-  "    return _parse_list_rule(rule)", 'revert fix D2 (falsy / mapping values)')
+m('c02-revert-d2', 'C02', P, "    if isinstance(rule, (list, tuple)):\n        return _parse_list_rule(rule)\n\n    # Anything else (null, a boolean, a number, a mapping) is not a rule; fail\n    # closed.  Note that an unquoted ``!`` in a YAML file is read as null.\n    LOG.error('Failed to understand rule %s', rule)\n    return _checks.FalseCheck()",
+  "    if rule is None:\n        return _checks.FalseCheck()\n    return _parse_list_rule(rule)", 'revert fix D2 (falsy / mapping values)')
 m('c02-leftover-first', 'C02', P, "    except ValueError:\n        # Couldn't parse the rule\n        LOG.exception('Failed to understand rule %s', rule)\n\n        # Fail closed\n        return _checks.FalseCheck()",
   "    except ValueError:\n        # Couldn't parse the rule\n        LOG.exception('Failed to understand rule %s', rule)\n        if len(state.values) == 2 and state.tokens == ['check', 'check']:\n            return state.values[0]\n\n        # Fail closed\n        return _checks.FalseCheck()",
   'two adjacent checks: the first one is used instead of failing closed')
@@ -191,6 +191,8 @@ m('c20-clear-in-place', 'C20', Y, "        if overwrite:\n            self.rules
 m('c20-shared-check-mutated', 'C20', Y, "                self.rules[default.name] = check\n", "                self.rules[default.name] = check\n                if isinstance(check, _checks.RoleCheck) and check.match == 'z':\n                    check.match = 'zz'\n                    check.match = 'z'\n",
   'a check object shared by old and new stores is transiently mutated')
 
+m('c02-revert-d3', 'C02', P, "    if isinstance(rule, (list, tuple)):\n        return _parse_list_rule(rule)\n\n    # Anything else (null,",
+  "    if rule is None or isinstance(rule, (list, tuple)):\n        return _parse_list_rule(rule)\n\n    # Anything else (null,", 'revert fix D3 (null rule value allows)')
 # ---- second round (replacements for mutants the repository suite notices) ---------
 m('c11-any-rule-ref-is-alias', 'C11', Y, "                str(file_rule.check) != 'rule:%s' % default.name and\n",
   "                not str(file_rule.check).startswith('rule:') and\n", 'any old-name override that is a rule: reference is treated as the alias')
@@ -223,6 +225,8 @@ EQUIVALENT = {
     'c18-revert-d8': 'without the conversion the list is written as a JSON/YAML list, which loads back as the same rule',
     'c12-register-no-copy': 'registering without a copy is invisible unless something mutates the object',
     'c20-iterate-copy': 'an improvement: removes one known finding; exit must stay 0',
+    'c06-bypass-default': 'dict.__getitem__ on a dict subclass still honours __missing__, so the default-rule fallback is not bypassed',
+    'c20-file-rules-first': 'only shifts the windows of the already known mechanisms (no new observable class): masked by the known finding, as DESIGN 4b says such changes can be',
 }
 for _m in M:
     if _m['id'] in EQUIVALENT:
